@@ -301,6 +301,21 @@ pub fn run(ctx: &Ctx) -> i32 {
                 acc.count(&format!("judged:{}", kind.name()), 1);
                 acc.note("classes_judged", kind.name());
                 acc.nontrivial.insert(hash64(&format!("{}{}", kind.name(), c.printed.text)));
+                // ---- a read that is *not* the planted one (the register is assigned in front of it) must not be
+                // reported as well: "located on the offending instruction"
+                if v.ok && *kind == Inject::ReadUnassigned {
+                    let site_lines: Vec<usize> = site.lines.iter().filter_map(|l| c.printed.line_of_src.get(*l).copied()).collect();
+                    if let Some(d) = diags.iter().find(|d| d.code == "invalid-use-before-assignment" && !site_lines.contains(&d.span.start.line)) {
+                        let text = c.printed.text.lines().nth(d.span.start.line).unwrap_or("").trim().to_string();
+                        acc.violation(
+                            format!("C05|{}|innocent-read-reported|{}", kind.name(), reg_class(site.reg)),
+                            format!("planted {}: besides the planted read, `{text}` (line {}) is reported as a read before assignment", kind.name(), d.span.start.line + 1),
+                            json!({"program": c.printed.text, "class": kind.name(), "site_lines": site.lines, "diagnostics": diags.iter().map(diag_brief).collect::<Vec<_>>()}),
+                        );
+                    } else {
+                        acc.count("no_innocent_read_reported", 1);
+                    }
+                }
                 if v.ok {
                     acc.count("reported_at_site", 1);
                     if k < 1 {
